@@ -48,7 +48,8 @@ class Proxy:
     | noncontig (Fortran-ordered / strided result).
     """
 
-    def __init__(self, name, fn, ret="fresh", stats=None):
+    def __init__(self, name, fn, ret="fresh", stats=None, interfere=False):
+        self.interfere = interfere
         self.name = name
         self.fn = fn
         self.ret = ret
@@ -63,6 +64,8 @@ class Proxy:
         self.calls += 1
         arg = args[-1]
         before = codec.bytes_digest(arg)
+        if self.interfere:
+            run_other_solvers(arg.shape, arg.dtype, self.stats)
         out = self.fn(*args)
         if self.fault is not None:
             out2 = self.fault(i, arg, out)
@@ -165,3 +168,55 @@ def warm_jit():
         if dt in (np.float32, np.complex64):
             sp.thresh.soft_thresh(lam32, a)
         sp.thresh.soft_thresh(lam32.astype(np.float64), a)
+
+
+def run_other_solvers(shape, dtype, stats=None):
+    """Buggify: while one solver is in the middle of an update, *other* solver
+    instances of every stepping class run to completion on arrays of the same
+    shape and dtype (a user callback is free to do that - e.g. a proximal operator
+    evaluated iteratively). They end at exact fixed points. Any state shared
+    between solver instances (class-level scratch buffers, module-level caches)
+    makes the outer solver misbehave."""
+    import sigpy as sp
+
+    c = np.full(shape, 1.5, dtype=dtype)
+    x = np.zeros(shape, dtype=dtype)
+    gm = sp.alg.GradientMethod(lambda v: v - c, x, 1.0, proxg=lambda a, v: v, accelerate=False, max_iter=4, tol=0)
+    while not gm.done():
+        gm.update()
+    x2 = np.zeros(shape, dtype=dtype)
+    gma = sp.alg.GradientMethod(lambda v: v - c, x2, 1.0, accelerate=True, max_iter=4, tol=0)
+    while not gma.done():
+        gma.update()
+    xp_ = np.zeros(shape, dtype=dtype)
+    up_ = np.zeros(shape, dtype=dtype)
+    pd = sp.alg.PrimalDualHybridGradient(lambda a, v: v / (1 + a), lambda a, v: v, lambda v: v, lambda v: v,
+                                         xp_, up_, 0.5, 0.5, max_iter=3, tol=0)
+    while not pd.done():
+        pd.update()
+    xc = np.zeros(shape, dtype=dtype)
+    cg = sp.alg.ConjugateGradient(lambda v: 2 * v, c, xc, max_iter=3, tol=0)
+    while not cg.done():
+        cg.update()
+    if stats is not None:
+        stats["buggify.other_solvers_ran_inside_callback"] += 1
+
+
+def iterative_prox(base, stats=None):
+    """Buggify: a proximal operator that is evaluated by an inner sigpy solver
+    (legal for "any function computing alpha, x -> prox"). The inner problem
+    min_z 1/2||z - v||^2 + alpha g(z) is solved by GradientMethod with unit step,
+    which reaches prox_{alpha g}(v) exactly after one update and then sits at an
+    exact fixed point; the value returned is therefore the exact prox."""
+    import sigpy as sp
+
+    def prox(alpha, v):
+        z = np.zeros_like(v)
+        inner = sp.alg.GradientMethod(lambda w: w - v, z, 1.0, proxg=lambda t, w: base(alpha * t, w),
+                                      accelerate=False, max_iter=4, tol=0)
+        while not inner.done():
+            inner.update()
+        if stats is not None:
+            stats["buggify.prox_evaluated_by_inner_solver"] += 1
+        return z
+    return prox
